@@ -25,6 +25,7 @@ type AuthHost struct {
 	ScopeStyle  int    `json:"scope_style,omitempty"` // how the challenge renders the scope string
 	PresetToken bool   `json:"preset_token,omitempty"` // the credential carries an access token
 	Redirect    bool   `json:"redirect,omitempty"`     // blob GETs are redirected to cdn.example
+	NoCred      bool   `json:"no_cred,omitempty"`      // the caller has no credential for this host
 }
 
 type AuthReq struct {
@@ -84,6 +85,9 @@ func (p *authProp) Gen(r *Rand, tier string, idx int) any {
 		}
 		if strings.HasPrefix(h.Scheme, "bearer") && h.ChangeAfter == 0 && r.Chance(0.1) {
 			h.PresetToken = true
+		}
+		if i > 0 && h.Scheme != "none" && r.Chance(0.15) {
+			h.NoCred, h.PresetToken, h.ChangeAfter, h.NewScheme = true, false, 0, ""
 		}
 		ap.Hosts = append(ap.Hosts, h)
 	}
@@ -229,6 +233,9 @@ func (w *authWorld) credential(ctx context.Context, hostport string) (auth.Crede
 	for i, h := range w.ap.Hosts {
 		if h.Name != hostport {
 			continue
+		}
+		if h.NoCred {
+			return auth.EmptyCredential, nil
 		}
 		c := auth.Credential{Username: w.user(i), Password: w.pass(i)}
 		sch := h.Scheme
@@ -630,6 +637,14 @@ func (p *authProp) run(rc *RunCtx, ap *AuthParams, info *RunInfo) *Verdict {
 			gotCred = true
 		}
 		what := fmt.Sprintf("request %s %s %s (task %d, hints %v)", d.q.Method, ap.Hosts[d.q.Host].Name, d.q.Repo, d.task, d.q.Hints)
+		if ap.Hosts[d.q.Host].NoCred {
+			// no credential for this host: the request legitimately ends with an error or 401
+			if d.err == nil && d.status != 401 {
+				return violation("authorized-without-credentials", "", "%s succeeded although the caller has no credential for that host\n%s", what, describe())
+			}
+			info.Probes["host_without_credentials"]++
+			continue
+		}
 		if d.err != nil {
 			return violation("request-failed", "", "%s failed although the credentials are valid: %v\n%s", what, d.err, describe())
 		}
